@@ -85,8 +85,8 @@ def to_tokens(hists, first_id=1):
 
 
 DEFAULT_PARAMS = {"maxc": 3, "minc": 2, "maxv": 5, "len": 20, "cbounds": [0, 1, 4, 10], "vbounds": [-1, 1, 3],
-                  "pens": [0, 1, 2], "ws": [0, 1, 2, 4], "lims": [-1, 1, 2], "caps": [2, 3], "late": 0, "ff": [],
-                  "bases": [[]]}
+                  "pens": [0, 1, 2], "ws": [0, 1, 2, 4], "lims": [-1, 1, 2], "caps": [2, 3], "pols": [0, 1], "late": 0,
+                  "ff": [], "bases": [[]]}
 
 
 def params(**kw):
@@ -123,10 +123,10 @@ def tlc_histories(ctx, par, tag, simulate=None, seed=None, timeout=600, workers=
     json.dump(par, open(pf, "w"))
     if simulate:
         r = vlib.tlc(os.path.join(LSPEC, "LmmGen.tla"), cfg=os.path.join(LSPEC, "LmmGen_sim.cfg"), env={"LMM_PARAMS": pf},
-                     simulate="num=%d" % simulate, depth=par["len"] + 200, seed=seed, workers=1, timeout=timeout)
+                     simulate="num=%d" % simulate, depth=par["len"] + 200, seed=seed, workers=1, timeout=timeout, xmx="1g")
     else:
         r = vlib.tlc(os.path.join(LSPEC, "LmmGen.tla"), cfg=os.path.join(LSPEC, "LmmGen_hist.cfg"), env={"LMM_PARAMS": pf},
-                     workers=workers, timeout=timeout)
+                     workers=workers, timeout=timeout, xmx="2g")
     _check_tlc(r, "history generation (%s)" % tag)
     ctx.add_tlc(r)
     return _parse_hists(r), r
@@ -240,14 +240,14 @@ def make_cases(hists, hdr, recs, first_id=0):
     return cases
 
 
-def validate(ctx, hists, hdr, recs, tag="tv", nproc=8, timeout=900):
-    """TLC evaluates the predicates of Lmm.tla on what the implementation did. Returns the set of
-    (history index, operation index (1-based), kind, predicate) that failed."""
+def validate(ctx, hists, hdr, recs, tag="tv", nproc=6, timeout=900):
+    """TLC evaluates the predicates of Lmm.tla on what the implementation did. Returns {(history index, operation index
+    (1-based), kind, predicate) that failed: cause tags of the abstract system that follows the implementation}."""
     cases = make_cases(hists, hdr, recs)
     n = len(cases)
     if n == 0:
-        return set()
-    nproc = max(1, min(nproc, (n + 24) // 25))
+        return {}
+    nproc = max(1, min(nproc, (n + 59) // 60))
     size = (n + nproc - 1) // nproc
     chunks = [cases[lo:lo + size] for lo in range(0, n, size)]
 
@@ -256,23 +256,23 @@ def validate(ctx, hists, hdr, recs, tag="tv", nproc=8, timeout=900):
         cf = os.path.join(ctx.scratch, "%s_cases_%d.json" % (tag, i))
         json.dump(ch, open(cf, "w"))
         r = vlib.tlc(os.path.join(LSPEC, "LmmTrace.tla"), env={"LMM_CASES": cf}, timeout=timeout,
-                     workers=max(2, vlib.NCPU // nproc))
+                     workers=max(2, vlib.NCPU // nproc), xmx="2g")
         _check_tlc(r, "trace validation (%s chunk %d)" % (tag, i))
         exp_states = sum(len(c["ops"]) + 1 for c in ch)
         if r.distinct != exp_states:
             raise vlib.InfraError("trace validation did not consume every operation: %d states for %d expected\n%s" %
                                   (r.distinct, exp_states, r.out[-2000:]))
-        bad = set()
+        bad = {}
         for line in r.prints:
             if line.startswith('<<"BAD"'):
                 v = vlib.parse_tla_value(line)
-                bad.add((v[1], v[2], v[3], v[4]))
+                bad[(v[1], v[2], v[3], v[4])] = sorted(v[5])
         return bad, r
 
     res = vlib.parallel_map(one, list(enumerate(chunks)), nproc=nproc)
-    bad = set()
+    bad = {}
     for b, r in res:
-        bad |= b
+        bad.update(b)
         ctx.add_tlc(r)
     ctx.cov["traces_validated_against_impl"] += n
     return bad
